@@ -1206,6 +1206,70 @@ func fF2(p *Prog, o *obls, fn *ssa.Function) {
 // reallocWhenSmall: dst is *φ / φ where one incoming value is the pooled buffer and the others are fresh
 // make([]byte, len(src)) allocations chosen by a branch that compares len(src) with the pooled buffer's length.
 func reallocWhenSmall(p *Prog, dst, src ssa.Value) bool {
+	srcKey := p.pureKey(src)
+	isSrcLen := func(v ssa.Value) bool { return isLenOf(p, v, srcKey) }
+	if reallocWhenSmallV(p, dst, isSrcLen) {
+		return true
+	}
+	// the buffer is obtained from a repository helper that is told len(source) and makes the choice itself
+	// (buf, err := p.bufferFor(len(payload)))
+	v := dst
+	for i := 0; i < 6; i++ {
+		switch x := v.(type) {
+		case *ssa.UnOp:
+			v = x.X
+			continue
+		case *ssa.Slice:
+			if x.Low != nil && !isConstInt(x.Low, 0) {
+				return false
+			}
+			v = x.X
+			continue
+		case *ssa.Extract:
+			v = x.Tuple
+			continue
+		}
+		break
+	}
+	call, ok := v.(*ssa.Call)
+	if !ok {
+		return false
+	}
+	h := call.Call.StaticCallee()
+	if h == nil || !p.InUniverse(h) || h.Blocks == nil {
+		return false
+	}
+	for k, a := range call.Call.Args {
+		if k >= len(h.Params) || !isSrcLen(p.origin(a)) {
+			continue
+		}
+		par := h.Params[k]
+		isPar := func(v ssa.Value) bool { return p.origin(v) == ssa.Value(par) }
+		good, n := true, 0
+		for _, b := range h.Blocks {
+			ret, isRet := b.Instrs[len(b.Instrs)-1].(*ssa.Return)
+			if !isRet || len(ret.Results) == 0 || b == h.Recover {
+				continue
+			}
+			rv := returnedValue(ret, 0)
+			if cst, isC := rv.(*ssa.Const); isC && cst.IsNil() {
+				continue
+			}
+			n++
+			if !reallocWhenSmallV(p, rv, isPar) {
+				good = false
+			}
+		}
+		if good && n > 0 {
+			return true
+		}
+	}
+	return false
+}
+
+// reallocWhenSmallV: v is a φ of the pooled buffer and a fresh make(…, n) with n satisfying isSrcLen, selected by a
+// comparison of such an n with the length of the pooled buffer.
+func reallocWhenSmallV(p *Prog, dst ssa.Value, isSrcLen func(ssa.Value) bool) bool {
 	v := dst
 	for i := 0; i < 6; i++ {
 		switch x := v.(type) {
@@ -1225,7 +1289,6 @@ func reallocWhenSmall(p *Prog, dst, src ssa.Value) bool {
 	if !ok {
 		return false
 	}
-	srcKey := p.pureKey(src)
 	fresh := 0
 	for _, e := range phi.Edges {
 		if poolBufferOrigin(p, e) != nil {
@@ -1243,7 +1306,7 @@ func reallocWhenSmall(p *Prog, dst, src ssa.Value) bool {
 				}
 			}
 		}
-		if ms == nil || !isLenOf(p, p.origin(ms.Len), srcKey) {
+		if ms == nil || !isSrcLen(p.origin(ms.Len)) {
 			return false
 		}
 		fresh++
@@ -1258,7 +1321,6 @@ func reallocWhenSmall(p *Prog, dst, src ssa.Value) bool {
 			continue
 		}
 		if bo, ok := c.(*ssa.BinOp); ok && isComparison(bo.Op) {
-			isSrcLen := func(v ssa.Value) bool { return isLenOf(p, v, srcKey) }
 			isBufLen := func(v ssa.Value) bool {
 				c, ok := v.(*ssa.Call)
 				return ok && (builtinName(&c.Call) == "len" || builtinName(&c.Call) == "cap") && poolBufferOrigin(p, c.Call.Args[0]) != nil
